@@ -40,7 +40,7 @@ func isResumeStack(t types.Type) bool {
 // c02Keys: keys of ResumeStack literals are absolute child indices.
 func c02Keys(c *core.Check) {
 	p := c.Prog
-	r := c.Rule("R1", "resume keys are absolute child indices: in every ResumeStack built by the layout code, a key that depends on the index of a loop over children[skip:] (or over any re-sliced list) contains the slice's lower bound with the same coefficient, so that the continuation starts at the child the fragment stopped at", 35)
+	r := c.Rule("R1", "resume keys are absolute child indices: in every ResumeStack built by the layout code, a key that depends on the index of a loop over children[skip:] (or over any re-sliced list) contains the slice's lower bound with the same coefficient, so that the continuation starts at the child the fragment stopped at", 36)
 	for _, fn := range p.FuncsOfPkg("html/layout") {
 		fn := fn
 		// the lower bounds of the slices each phi indexes
